@@ -1,6 +1,6 @@
 (** What can keep Close waiting: in every reachable state of the repaired protocol in which a
     Close call waits and NO system label is enabled (everything but the environment's choices:
-    a new Close call, the user's cancel, an emission, a handler function returning, the
+    a new Close or RunHandlers call, the user's cancel, an emission, a handler function returning, the
     subscriber's own Close() returning, the clock), a handler function is still running, or a
     handleClose goroutine is blocked inside its subscriber's Close(), or the user had cancelled
     Run's context before Close signalled (the known finding).  No axioms. *)
@@ -59,7 +59,7 @@ Qed.
 (** labels of the system: everything except the environment's choices *)
 Definition sys_label (l : label) : bool :=
   match l with
-  | LCall _ | LEnvCancel | LEmit _ | LFinish _ | LTimeout _ | LSubCloseRet _ => false
+  | LCall _ | LRhCall _ | LEnvCancel | LEmit _ | LFinish _ | LTimeout _ | LSubCloseRet _ => false
   | _ => true
   end.
 
